@@ -489,7 +489,7 @@ func c02Growth(c *Ctx, ix *idxEngine, rows, hdr, cells, inTable, nCols, cols *ty
 				f, b := loadedField(recv)
 				recvOK = f == inTable && b == g.rowV
 			} else {
-				recvOK = recv == g.tableV
+				recvOK = capturedLoad(recv) == g.tableV
 			}
 			if !recvOK {
 				why = "resize is applied to a different table"
@@ -535,7 +535,7 @@ func fillsRowFromParamD(fn *ssa.Function, rowV ssa.Value, par *ssa.Parameter, de
 			return
 		}
 		cc := callCommon(in)
-		if cc.Args[0] != rowV {
+		if capturedLoad(cc.Args[0]) != rowV {
 			return
 		}
 		// inside a loop whose header test compares against len(par)
